@@ -97,7 +97,7 @@ type Flight struct {
 }
 
 type Case struct {
-	Variant string   `json:"variant"` // "script" or "ufs"
+	Variant string   `json:"variant"` // "script", "ufs" or "ufsx"
 	Dotu    bool     `json:"dotu"`
 	Auth    bool     `json:"auth,omitempty"`
 	Maxpend int      `json:"maxpend"`
@@ -106,7 +106,7 @@ type Case struct {
 	Kind    string   `json:"kind"` // eof | err | half
 	Flights []Flight `json:"flights,omitempty"`
 	Order   []int    `json:"order,omitempty"` // release order of the parked flights (indices into Flights)
-	Sched   string   `json:"sched,omitempty"` // closefirst | respfirst | mid
+	Sched   string   `json:"sched,omitempty"` // closefirst | respfirst | mid | slowdestroy
 	// Burst: that many further independent requests (clones of / failing walks
 	// from a valid fid to fresh fid numbers) are written in one piece right
 	// before the cut, so they execute while the disconnect is handled.
@@ -114,6 +114,10 @@ type Case struct {
 	// ufs variant
 	Ops  []UOp `json:"ops,omitempty"`
 	Pipe int   `json:"pipe,omitempty"` // the last Pipe complete frames are written without waiting for replies
+	// ufsx variant (requests executing inside Ufs at a Tversion / at the cut)
+	Steps       []XStep `json:"steps,omitempty"`
+	Big         int     `json:"big,omitempty"`          // entries of the directory "big"
+	UnlinkAfter []bool  `json:"unlink_after,omitempty"` // per FIFO: its name is removed before the open parked on it is released after the cut
 }
 
 func (a *Act) msg(seq int) *ref9p.Msg {
@@ -219,6 +223,8 @@ func execute(test string, c *Case) error {
 	var err error
 	if c.Variant == "ufs" {
 		err = runUfs(c, &res)
+	} else if c.Variant == "ufsx" {
+		err = runUfsX(c, &res)
 	} else {
 		err = runScript(c, &res)
 	}
@@ -232,7 +238,7 @@ func execute(test string, c *Case) error {
 		hx.Label("cut at frame boundary")
 	}
 	hx.Label(fmt.Sprintf("executing at the cut=%d", res.effective))
-	if c.Variant != "ufs" {
+	if c.Variant == "script" {
 		hx.Label(fmt.Sprintf("maxpend=%d", c.Maxpend))
 	}
 	if res.validAtCut > 0 || res.effective > 0 || res.openFds > 0 {
@@ -340,7 +346,7 @@ func genConfig(t *rapid.T) *Case {
 		Auth:    rapid.IntRange(0, 3).Draw(t, "auth") == 0,
 		Maxpend: rapid.SampledFrom([]int{0, 16}).Draw(t, "maxpend"),
 		Kind:    rapid.SampledFrom([]string{"eof", "eof", "err", "err", "half"}).Draw(t, "cutkind"),
-		Sched:   rapid.SampledFrom([]string{"closefirst", "closefirst", "respfirst", "mid"}).Draw(t, "sched"),
+		Sched:   rapid.SampledFrom([]string{"closefirst", "closefirst", "respfirst", "mid", "slowdestroy", "slowdestroy"}).Draw(t, "sched"),
 	}
 }
 
@@ -559,7 +565,7 @@ func TestEnumOrders(t *testing.T) {
 	for _, sel := range sels {
 		for _, mp := range []int{0, 16} {
 			for _, kind := range []string{"eof", "err"} {
-				for _, sc := range []string{"closefirst", "respfirst", "mid"} {
+				for _, sc := range []string{"closefirst", "respfirst", "mid", "slowdestroy"} {
 					idx++
 					if hx.NShards > 1 && idx%hx.NShards != hx.Shard {
 						continue
@@ -586,7 +592,7 @@ func TestEnumOrders(t *testing.T) {
 		}
 	}
 	if hx.Thorough() {
-		hx.Exhaustive("every ordered selection of 0..3 of 7 menu requests (clunk, remove, stat, full walk, failing walk, attach, late attach) parked at the cut = every held set x every release order, plus all 24 orders of one set of 4, x Maxpend {0,16} x {EOF, error} x 3 schedules")
+		hx.Exhaustive("every ordered selection of 0..3 of 7 menu requests (clunk, remove, stat, full walk, failing walk, attach, late attach) parked at the cut = every held set x every release order, plus all 24 orders of one set of 4, x Maxpend {0,16} x {EOF, error} x 4 schedules")
 	}
 }
 
